@@ -122,7 +122,10 @@ CLAIMED["C14"] = dict(
          "the optional flag, a well-formed slice whose two bounds are owned by that segment alone, a field segment for every quoted name (an empty quoted name is rejected), and no selector on rejected input; "
          "Selector.String is verified to print the recorded texts joined; hence (Parse post-condition `roundtrip`, by induction lemmas) printing a parsed selector reproduces the input whenever nothing was normalised. "
          "Proof for the policy side: FromIPLD / statementFromIPLD / statementsFromIPLD are verified (mutual recursion with a termination measure on the node) to return an error or a *faithful reading* of the node "
-         "(relation reprs, defined by structural recursion: exact tuple length per operator, the operator, literal and pattern taken over unchanged, nested statements faithful readings of the nested nodes, one per element).",
+         "(relation reprs, defined by structural recursion: exact tuple length per operator, the operator, literal and pattern taken over unchanged, nested statements faithful readings of the nested nodes, one per element); "
+         "the selector of every decoded leaf statement is a reading of the node's text (selReads: one segment per token, meaning what the token says); FromDagJson is FromIPLD of the standard DAG-JSON decoding. "
+         "The constructors (Equal … LessThanOrEqual, Like, Not, And, Or, All, Any, assemble, Construct) are verified to build the statement they name: operator, literal, pattern (accepted exactly when well-formed), "
+         "selector read from the text given, one nested statement per inner constructor in order.",
     note="Policy write-back (statementsToIPLD / statementToIPLD) is verified to produce a node of which the statement is a faithful reading (same relation reprs), so a policy and its decoded re-encoding are faithful readings of one node: "
          "equal operators, lengths, literals and patterns at every depth — that corollary (an induction over two statement trees) is on paper. Not proved (honest gaps): the selector stored in a statement is not related to the node's text inside reprs; "
          "behavioural equality after a round trip is not under contract. "
